@@ -31,8 +31,7 @@ Definition frame_of (b : bytes) : option frame :=
   let e := byte_at 0 b in
   if negb ((e =? 108) || (e =? 66)) then None else
   let big := e =? 66 in
-  if (1 <=? byte_at 1 b) && (byte_at 1 b <=? 4)            (* a defined message type *)
-     && (byte_at 2 b <? 8)                                  (* only defined flag bits *)
+  if (1 <=? byte_at 1 b) && (byte_at 1 b <=? 4)            (* a defined message type; unknown flag bits are to be ignored *)
      && negb (spec_u32 big 8 b =? 0)                        (* serial is not zero *)
   then Some {| f_big := big;
                f_header_end := 16 + spec_u32 big 12 b;
